@@ -33,7 +33,8 @@ def fit_case(draw, accuracy=None):
     if W is not None:
         W = np.maximum(np.asarray(W, dtype=float), 0.3).tolist()
     return dict(system=sysd, rows=rows, W=W, entry=draw(st.sampled_from(["function", "estimator"])),
-                accuracy=(draw(st.sampled_from(["default", "default", "high"])) if accuracy is None else accuracy))
+                accuracy=(draw(st.sampled_from(["default", "default", "high"])) if accuracy is None else accuracy),
+                layout=draw(st.sampled_from(["C", "C", "F", "strided"])))
 
 
 def run_fit(sv: Sys, B, W, entry, opt):
@@ -61,8 +62,10 @@ def run_fit(sv: Sys, B, W, entry, opt):
 
 def body_fit(case):
     sv = Sys(case["system"])
-    B = np.array([r["b"] for r in case["rows"]], dtype=float)
+    B = gens.with_layout(np.array([r["b"] for r in case["rows"]], dtype=float), case.get("layout"))
     W = case["W"]
+    if W is not None and np.ndim(W) == 2:
+        W = gens.with_layout(W, case.get("layout"))
     acc = case["accuracy"]
     opt = dict(HIGH_ACC) if acc == "high" else {}
     tol = TOL[acc]
